@@ -196,6 +196,22 @@ SNIPPETS = [
     ({'x': 'ff'}, "r = int(x, 16)", 'unsupported'),
     ({'x': 'café'}, "r = x.encode('ascii', 'replace')", 'unsupported'),
     ({'x': b'  a '}, "r = x.strip(b' ')", 'unsupported'),
+    # --- exceptions, with, finally -----------------------------------------
+    ({'n': 1},
+     "try:\n    raise DiffXParseError('m', linenum=n)\nexcept BaseDiffXError as e:\n    r = e.linenum"),
+    ({'n': 1},
+     "r = 0\ntry:\n    try:\n        raise ValueError('x')\n    finally:\n        r += 1\nexcept ValueError:\n    r += 10"),
+    ({'n': 1},
+     "r = 0\ntry:\n    raise KeyError('k')\nexcept (RecursionError, ValueError):\n    r = 1\nexcept LookupError:\n    r = 2"),
+    ({'n': 1},
+     "r = 0\ntry:\n    raise UnicodeDecodeError('a', b'', 0, 1, 'r')\nexcept ValueError:\n    r = 3"),
+    ({'x': b'ab'},
+     "fp = io.BytesIO(x)\nwith fp:\n    a = fp.read(1)\nr = (a, fp.closed)"),
+    ({'n': 2},
+     "def_r = []\nfor i in range(3):\n    try:\n        if i == n:\n            continue\n        def_r.append(i)\n    finally:\n        def_r.append(-1)\nr = def_r"),
+    ({'n': 5}, "r = n if n > 3 else (n - 1 if n > 1 else 0)"),
+    ({'n': 5}, "r = not (n > 3 and n < 10) or n == 7"),
+    ({'x': 'a'}, "r = x * 2 + 'b' * 0", 'unsupported-symbolic'),
 ]
 
 
@@ -236,6 +252,9 @@ def run_one(args):
         kind = kind[:-9] if mode == 'symbolic' else 'exact'
     env = dict(inputs)
     import io, os, re, json, copy
+    from pyvc import extract as _ex
+    _errs = _ex.load_module('pydiffx.errors')[0]
+    env.update({k: v for k, v in vars(_errs).items() if isinstance(v, type)})
     env.update({'io': io, 'os': os, 're': re, 'json': json, 'deepcopy': copy.deepcopy})
     exec(body, env)
     want = env['r']
